@@ -246,6 +246,33 @@ def _io_nodes(ctx, f, rio):
 def _lazy_generators(ctx, R, roles, rio):
     """A public operation that hands back a generator must check availability when the generator RUNS: a plain method that
     returns a call to a package generator evaluates its guard at creation time, and the I/O happens later, unguarded."""
+    # functions whose result is produced lazily: generators, and plain functions that return (a generator expression over) the result of one
+    lazy = set(x for x in roles.mod.all_funcs if x.is_generator)
+    for _round in range(4):
+        grew = False
+        for x in roles.mod.all_funcs:
+            if x in lazy:
+                continue
+            gx = ctx.cfg(x)
+            dfx = ctx.df(x)
+            for n in gx.live_nodes():
+                if n.kind == "stmt" and isinstance(n.ast, ast.Return) and n.ast.value is not None:
+                    v = unawait(n.ast.value)
+                    srcs = [v]
+                    if isinstance(v, ast.GeneratorExp):
+                        srcs = [unawait(v.generators[0].iter)]
+                    if isinstance(srcs[0], ast.Name):
+                        d = dfx.unique_def(n, srcs[0].id)
+                        if d is not None and d.kind == "assign" and not d.path and d.value is not None:
+                            srcs = [unawait(d.value)]
+                    for e in srcs:
+                        if isinstance(e, ast.Call):
+                            cs = ctx.cg.site(e)
+                            if cs is not None and any(c in lazy for c in cs.callees):
+                                lazy.add(x)
+                                grew = True
+        if not grew:
+            break
     for f in roles.public_ops():
         if f.is_generator:
             continue
@@ -255,6 +282,6 @@ def _lazy_generators(ctx, R, roles, rio):
                 v = unawait(n.ast.value)
                 if isinstance(v, ast.Call):
                     cs = ctx.cg.site(v)
-                    if cs is not None and any(c.is_generator and c in rio for c in cs.callees):
+                    if cs is not None and any(c in lazy and c in rio for c in cs.callees):
                         R.fail("GUARD-lazy", "%s|%s" % (f.qualname, norm_stmt(n.ast)), "%s returns a generator that performs the I/O later: the availability guard is evaluated when the generator is created, not when it runs (close() or a failed reconnect in between is not noticed)" % f.name, f.loc(n.ast))
     R.ok("GUARD-lazy", roles.dev_cls.qualname, "generator-returning operations check availability inside the generator", roles.mod.relpath, trivial=True)
